@@ -261,6 +261,13 @@ theorem passes_plain {T : Nat} {st : RState} {i : In} (ha : i.assemble = true)
     (h : i.req.block1 = none) : Passes T st i i.req :=
   ⟨ha, by rw [feed_none h]⟩
 
+/-- a Block1 block is *accepted* when it starts an assembly (number 0) or continues the one
+stored under its block key exactly where that ends, with a payload that fits its size -/
+def Accepted (T : Nat) (st : RState) (i : In) (b : Blk) : Prop :=
+  b.num = 0 ∨ ∃ asm, alookup (blockKey i.req) (spoolAt T st i).items = some asm ∧
+    isRequestCode asm.code = true ∧ sizeOk b i.req.payload.length = true ∧
+    b.start = asm.payload.length
+
 theorem later_of_not_fresh {m : Msg} (h : isFresh m = false) :
     ∃ b, m.block2 = some b ∧ b.num ≠ 0 := by
   unfold isFresh at h
